@@ -208,7 +208,10 @@ def rule_r1(prog, res) -> None:
 def rule_r2(prog, res) -> None:
     """marker persists what the predicate compares (writer/reader agreement)"""
     ci, tmark, tcont = _tree_roles(prog)
-    build, init = ci.methods["build"], ci.methods["__init__"]
+    from ..inline import inlined
+
+    # same-module helpers (e.g. an extracted marker reader / writer) are expanded in place
+    build, init = inlined(prog, ci.methods["build"], keep={"build_trees"}), inlined(prog, ci.methods["__init__"])
     res.touch(build)
     res.touch(init)
     # writer sequence on the marker
@@ -259,10 +262,22 @@ def rule_r2(prog, res) -> None:
     for x in walk_no_nested(init.node):
         if isinstance(x, ast.IfExp) and "Closed" in unparse(x):
             dec = x
-    if enc is None or dec is None:
+    # the reader's decoding expression with every local replaced by its definition (so that it is a function
+    # of the bytes returned by read(1) only, however many named steps the source uses)
+    from .. import symx
+
+    dec_sub = None
+    for p_ in symx.explore(prog, ci.methods["__init__"], inline=symx.inline_private_helpers(prog), fork_ifexp=False):
+        for ev in p_.events:
+            if ev.kind == "store" and ev.value is not None:
+                for x in ast.walk(ev.value):
+                    if isinstance(x, ast.IfExp) and all(isinstance(a_, ast.Attribute) and (dotted(a_) or "").startswith("Closed.") for a_ in (x.body, x.orelse)):
+                        dec_sub = x
+    if enc is None or dec is None or dec_sub is None:
         raise AnalysisError("C07.R2: closed-side encoding/decoding expressions not found (idiom not recognised)")
     closed_texts = sorted({unparse(x) for x in ast.walk(enc) if isinstance(x, ast.Attribute) and x.attr == "closed"})
     flag_names = sorted({n.id for n in ast.walk(dec.test) if isinstance(n, ast.Name) and n.id not in ("bool", "int")})
+    read_calls = [x for x in ast.walk(dec_sub.test) if isinstance(x, ast.Call) and isinstance(x.func, ast.Attribute) and x.func.attr == "read"]
     try:
         rt = {}
         for c in ("left", "right"):
@@ -275,17 +290,11 @@ def rule_r2(prog, res) -> None:
                     written = ceval(fe, {fs: b} if fs else {})
                 except Unknown:
                     written = None
-            env_r = {}
-            if isinstance(written, (bytes, bytearray)):
-                # … decoded by the reader's own expressions for the flag variable(s)
-                env_r[unparse(r_flag)] = written
-                for fnm in flag_names:
-                    defs = [v for v in all_def_values(init.node, fnm) if v is not None]
-                    if len(defs) == 1:
-                        env_r[fnm] = ceval(defs[0], env_r)
+            if isinstance(written, (bytes, bytearray)) and read_calls:
+                # … decoded by the reader's own (substituted) expression of the bytes read
+                rt[c] = ceval(dec_sub, {unparse(rc): written for rc in read_calls})
             else:
-                env_r = {f: int(b) for f in flag_names}
-            rt[c] = ceval(dec, env_r)
+                rt[c] = ceval(dec, {f: int(b) for f in flag_names})
     except Unknown as err:
         raise AnalysisError(f"C07.R2: cannot evaluate closed-side encoding ({err})")
     if rt == {"left": "left", "right": "right"}:
@@ -376,17 +385,36 @@ def rule_r3(prog, res) -> None:
 
 
 def rule_r4(prog, res) -> None:
-    """trees are rebuilt from the patch's own data file (no other input)"""
+    """trees are rebuilt from the patch's own data file (no other input): on every path of build_trees
+    (helpers looked through) the coordinates of every tree construction derive from patch.load_data()"""
+    from .. import symx
+
     bt = prog.func("build_trees")
     res.touch(bt)
-    loads = [c for c in calls_in(bt) if isinstance(c.func, ast.Attribute) and c.func.attr == "load_data"]
-    if not loads:
+    patch = bt.param_names()[0]
+    paths = symx.explore(prog, bt, inline=symx.inline_private_helpers(prog, public={"groupby"}))
+
+    def is_load(n) -> bool:
+        return isinstance(n, ast.Call) and isinstance(n.func, ast.Attribute) and n.func.attr == "load_data" and isinstance(n.func.value, ast.Name) and n.func.value.id == patch
+
+    n_ctor = 0
+    n_load = 0
+    bad = None
+    for p in paths:
+        n_load += sum(1 for ev in p.calls("load_data"))
+        for ev in p.calls():
+            if not any(k.name == "AngularTree" for k in prog.resolve_call(ev.fi, ev.node).classes()):
+                continue
+            n_ctor += 1
+            src = ev.expr.args[0] if ev.expr.args else (kwarg(ev.expr, "coords") or ev.expr)
+            if not symx.mentions(src, is_load):
+                bad = ev
+    if n_load == 0:
         raise AnalysisError("C07.R4: build_trees no longer loads the patch data")
-    ctor = [c for c in calls_in(bt) if any(k.name == "AngularTree" for k in prog.resolve_call(bt, c).classes())]
-    if ctor and all(depends_on(bt.node, c.args[0] if c.args else c, lambda x: x in loads) for c in ctor):
-        res.ok("C07.R4", res.site(bt), f"all {len(ctor)} tree constructions take their coordinates from patch.load_data()")
+    if n_ctor and bad is None:
+        res.ok("C07.R4", res.site(bt), f"all {n_ctor} tree constructions (over {len(paths)} paths) take their coordinates from {patch}.load_data()")
     else:
-        res.violation("C07.R4", bt, bt.node, "a tree is built from something else than the patch's data file", key_extra="tree-input")
+        res.violation("C07.R4", bt, bad.node if bad is not None else bt.node, "a tree is built from something else than the patch's data file", key_extra="tree-input")
 
 
 RULES = [
